@@ -762,3 +762,8 @@ impl Server {
     }
 }
 
+#[cfg(feature = "verif")]
+impl Server {
+    /// (tracked connections, entries in the active list, queued timer events)
+    pub fn verif_counts(&self) -> (usize, usize, usize) { (self.clients.len(), self.active_clients.len(), self.client_events.len()) }
+}
